@@ -10,6 +10,7 @@ from vlib import Check, build, tlc
 from checks import domops, progsound, c03, c06
 
 CAP, TAIL = 30, 6
+LONG_N, LONG_CAP = 110, 80
 
 
 def run(tier, seed):
@@ -24,8 +25,44 @@ def run(tier, seed):
     hs = [hist.chain_history(ck.rng, i + 1, n=ck.rng.choice([25, 35]), params=ck.rng.choice(c03.PARAMS)) for i in range(nchains)]
     fails, knowns, traces = domops.run_batch(ck, "chains", hs, doms, box=1, univ=6, timeout=2400, step_timeout=60)
     tp = os.path.join(vlib.BUILD, "work", "c05-chains", "traces.ndjson")
+    caps = {h["id"]: hist.chain_cap(h) for h in hs}
+    for t in traces:
+        t["cap"] = caps[t["id"]]
+    vlib.write_ndjson(tp, traces)
     r = tlc("WidenChain", "WidenChain", "c05-chainjudge", env={"DOM_TRACES": tp, "CHAIN_CAP": CAP, "CHAIN_TAIL": TAIL}, cont=True)
     ck.add_tlc(r, "WidenChain")
+    # long chains (longer than any legitimate number of relaxations): only the stabilisation judgement
+    nlong = 6 if tier == "quick" else 60
+    hl = []
+    for i in range(nlong):
+        h = hist.chain_history(ck.rng, 5000 + i, n=LONG_N, params=ck.rng.choice(c03.PARAMS))
+        for st in h["steps"]:       # at most 2 thresholds so that the cap below is a true bound
+            if "ts" in st:
+                st["ts"] = st["ts"][:2]
+        hl.append(h)
+    wdl = vlib.workdir("c05-long")
+    hp, op_, tpl = [os.path.join(wdl, x) for x in ("h.ndjson", "o.ndjson", "traces.ndjson")]
+    vlib.write_ndjson(hp, hl)
+    rc, out = vlib.sh([os.path.join(vlib.BUILD, "bin", "dom_replay"), hp, op_] + doms, timeout=3000, env={"VH_STEP_TIMEOUT": 120})
+    if rc != 0:
+        raise vlib.Broken("dom_replay failed on long chains: " + out[-1500:])
+    bylong = {h["id"]: h for h in hl}
+    tl = hist.merge(hl, vlib.read_ndjson(op_))
+    for t in tl:            # the stabilisation judgement only needs the answers of the inclusion tests
+        t["cap"] = hist.chain_cap(bylong[t["id"]])
+        for o in t["obs"]:
+            o["steps"] = [{"ans": x["ans"]} for x in o["steps"]]
+    vlib.write_ndjson(tpl, tl)
+    rl = tlc("WidenChain", "WidenChain", "c05-longjudge", env={"DOM_TRACES": tpl, "CHAIN_CAP": LONG_CAP, "CHAIN_TAIL": TAIL}, cont=True)
+    ck.add_tlc(rl, "WidenChain/long")
+    ck.cov["traces_validated_against_impl"] += sum(1 for t in tl for o in t["obs"] if o["err"] == 0)
+    bylong = {h["id"]: h for h in hl}
+    for tid, dom, inc, total, cap in {tuple(x) for x in rl.tuples("CHAIN")}:
+        h = dict(bylong[tid])
+        ck.violation("domain %s: widening chain of history %d does not stabilise: %d strict increases in %d widening steps (cap %d = "
+                     "constraints over the chain's variables x (1 + thresholds))" % (dom, tid, inc, total, cap),
+                     {"domain": dom, "history": h})
+    traces = traces + tl
     longest = {}
     for t in traces:
         for o in t["obs"]:
@@ -35,9 +72,8 @@ def run(tier, seed):
     ck.cov["longest_strict_chain_per_domain"] = longest
     ck.cov["chain_cap"] = CAP
     byid = {h["id"]: h for h in hs}
-    for tid, dom, inc, total in {tuple(x) for x in r.tuples("CHAIN")}:
-        ck.violation("domain %s: widening chain of history %d is not stationary: %d strict increases in %d widening steps (cap %d, "
-                     "last %d steps must be stationary)" % (dom, tid, inc, total, CAP, TAIL), {"domain": dom, "history": byid[tid]})
+    for tid, dom, inc, total, cap in {tuple(x) for x in r.tuples("CHAIN")}:
+        ck.violation("domain %s: widening chain of history %d: %d strict increases in %d widening steps exceed the cap %d" % (dom, tid, inc, total, cap), {"domain": dom, "history": byid[tid]})
     if r.is_violation and not r.tuples("CHAIN"):
         raise vlib.Broken("WidenChain violated without CHAIN record:\n" + r.out[-2000:])
     ck.sample({"chain_history_first_steps": hs[0]["steps"][:14], "thresholds": hs[0]["steps"][-3].get("ts")})
